@@ -62,10 +62,11 @@ HARNESS(harness_strndup_oom) {
   }
   WITNESS("end");
 }
-static void body_calloc_oom(const uint64_t size) {
+static void body_calloc_oom_(const uint64_t size, const int small_wrapped) {
   h_init(); IN_U64(num); IN_BOOL(oom);
   uint64_t prod; int wraps = __builtin_mul_overflow(num, size, &prod);
-  ASSUME(wraps || prod <= 16);                   /* stated bound: blocks of at most 16 bytes (the wrapped product when it wraps) */
+  ASSUME(wraps || prod <= 16);
+  if (small_wrapped) ASSUME(prod <= 16);         /* element sizes just above 2^64/k: the wrapped product is a SMALL number >= num (seeded C05-r4) */                   /* stated bound: blocks of at most 16 bytes (the wrapped product when it wraps) */
   oom_now = oom;
   uint8_t out[16];
   for (int i = 0; i < 16; i++) out[i] = 0xEE;
@@ -75,6 +76,7 @@ static void body_calloc_oom(const uint64_t size) {
   if (r) for (uint64_t i = 0; i < 16; i++) CHECK(out[i] == (i < prod ? 0 : 0xEE), "calloc: the block is zeroed");
   WITNESS("end");
 }
+static void body_calloc_oom(const uint64_t size) { body_calloc_oom_(size, 0); }
 /* element size is a constant per obligation (division by a symbolic divisor is out of the solver's reach) */
 HARNESS(harness_calloc_oom_0) { body_calloc_oom(0); }
 HARNESS(harness_calloc_oom_1) { body_calloc_oom(1); }
@@ -82,6 +84,8 @@ HARNESS(harness_calloc_oom_2) { body_calloc_oom(2); }
 HARNESS(harness_calloc_oom_3) { body_calloc_oom(3); }
 HARNESS(harness_calloc_oom_8) { body_calloc_oom(8); }
 HARNESS(harness_calloc_oom_big) { body_calloc_oom(0x8000000000000000ULL); }
+HARNESS(harness_calloc_oom_q62) { body_calloc_oom_(0x4000000000000001ULL, 1); }   /* 4 x (2^62+1) wraps to 4 */
+HARNESS(harness_calloc_oom_q60) { body_calloc_oom_(0x1000000000000001ULL, 1); }   /* 16 x (2^60+1) wraps to 16 */
 HARNESS(harness_calloc_oom_max) { body_calloc_oom(0xFFFFFFFFFFFFFFFFULL); }
 
 /* ---- demonstrations of the known findings (NOT in spec.py: expected to FAIL) */
